@@ -541,7 +541,8 @@ class FakeSP:
         return np.array([k[0] for k, _ in keep], dtype=int), np.array([k[1] for k, _ in keep], dtype=int), V
 
 
-SPARSE_IN = [((3, 2), [(0, 0), (2, 0), (0, 0), (1, 1), (2, 0)]), ((4, 1), [(1, 0), (2, 0), (1, 0)])]
+SPARSE_IN = [((3, 2), [(0, 0), (2, 0), (0, 0), (1, 1), (2, 0)]), ((4, 1), [(1, 0), (2, 0), (1, 0)]),
+             ((4, 3), [(3, 2), (0, 0), (1, 0), (3, 2), (1, 0), (3, 2), (2, 1)]), ((2, 2), [(0, 1), (1, 0), (0, 1), (1, 0)])]
 
 
 def sparsein_fn(layout, case):
@@ -676,7 +677,7 @@ def jobs(tier, seed):
     for binary in (True, False):
         out.append(H.Job("layout-%s" % ("bin" if binary else "asc"), job, "layout", binary, weight=2))
     for layout in ("bigmat", "nonbigmat"):
-        for case in range(len(SPARSE_IN)):
+        for case in range(2 if q else len(SPARSE_IN)):
             out.append(H.Job("sparse-input-%s-%d" % (layout, case), job, "sparsein", layout, case, weight=10))
     for n in range(1, (6 if q else 10) + 1):
         out.append(H.Job("colstats-%d" % n, job, "colstats", n, 11, split_depth=6 if n > 5 else None, weight=2 ** n))
